@@ -1412,6 +1412,7 @@ class CSym(object):
             return None
         is_tid = lambda v: v.op == "v" and v.args[0].startswith("tid#")
         cur_q = [q[0] for q in self.qvars if not (p.arr.private and is_tid(q[0]))]
+        acc = []          # contributions of accumulating stores of completed loop nests met so far (latest first)
         for e in reversed(cands):
             # a per-thread scratch array is addressed by every thread in its own copy: the thread index is not a coordinate of it
             eq_ = [q[0] for q in e.qvars if not (p.arr.private and is_tid(q[0]))]
@@ -1443,7 +1444,7 @@ class CSym(object):
             if p.arr.private:
                 # a per-thread scratch array (allocated inside the region): every thread filled its own copy, the thread index is not a coordinate
                 extra = [q for q in extra if not (q[0].op == "v" and q[0].args[0].startswith("tid#"))]
-            if len(extra) == 1 and e.op == "=":
+            if len(extra) == 1 and e.op == "=" and not acc:
                 qv, lo, hi, st = extra[0]
                 d = tm.mk_add(e.idx, tm.mk_neg(qv))
                 if qv not in tm.subterms(self.nf.rf_to_term(self.nf.nf(d))).values():
@@ -1451,11 +1452,49 @@ class CSym(object):
                     # the read must fall into the range initialised by that loop
                     self.side.append(("covered", tm.mk_and(tm.mk_le(lo, sol), tm.mk_lt(sol, hi)), tuple(self.guards), tuple(self.qvars), self.fn_stack[-1]))
                     return tm.substitute(e.val, {qv: sol})
+            if not self.footprint and e.op in ("=", "+=", "-=") and extra and isinstance(e.val, T):
+                # value mode, element (re)built by earlier completed loop nests: `x[k] = init` followed by `x[k] += term(m, k)` over reduction loops m.
+                # One loop variable of the store addresses the element (unit coefficient, solved from the index equation); the others do not occur in the
+                # index and are summed over.  The store is taken as a writer only if the solved position provably lies in its loop range; provably outside:
+                # it cannot alias; undecided: unsupported.
+                in_idx = [q for q in extra if q[0] in tm.subterms(e.idx).values()]
+                red = [q for q in extra if q[0] not in tm.subterms(e.idx).values()]
+                eg = e.guards[2:] if e.level == "thread" else e.guards
+                own = set()
+                for q_ in e.qvars:
+                    own.add(tm.mk_le(tm.lift(q_[1]), q_[0]).id)
+                    own.add(tm.mk_lt(q_[0], tm.lift(q_[2])).id)
+                cond_guards = [g_ for g_ in eg if tm.lift(g_).id not in own and g_ not in self.guards]
+                if len(in_idx) == 1 and not cond_guards and all(tm.lift(q_[3]) is tm.ONE for q_ in extra):
+                    qv, lo, hi, st = in_idx[0]
+                    try:
+                        d = self.nf.rf_to_term(self.nf.nf(tm.mk_add(e.idx, tm.mk_neg(qv))))
+                    except NFError:
+                        d = None
+                    if d is not None and qv not in tm.subterms(d).values():
+                        sol = tm.mk_add(p.off, tm.mk_neg(d))
+                        inside = tm.mk_and(tm.mk_le(tm.lift(lo), sol), tm.mk_lt(sol, tm.lift(hi)))
+                        ctx_h = list(self.hyps) + [x[1] for x in self.side if x[0] == "assume"] + list(self.guards)
+                        from pyvc import intarith
+                        if intarith.check_sat_int(ctx_h + [tm.mk_not(inside)], 3.0)[0] == "unsat":
+                            term = tm.substitute(e.val, {qv: sol})
+                            for rq, rlo, rhi, rst in reversed(red):
+                                bv = fresh(rq.args[0].split("#")[0] + "$")
+                                term = tm.mk_sum(bv, tm.lift(rlo), tm.lift(rhi), tm.substitute(term, {rq: bv}))
+                            if e.op == "=":
+                                return tm.mk_add(term, *acc) if acc else term
+                            acc.append(term if e.op == "+=" else tm.mk_neg(term))
+                            continue
+                        if intarith.check_sat_int(ctx_h + [inside], 3.0)[0] == "unsat":
+                            continue          # the solved position lies outside the range this store runs over: another element
             if not self.footprint and self._cannot_alias(e, extra, p):
                 continue
             if p.arr.private or p.arr.origin in ("malloc", "local"):
                 raise CUnsupported("read of scratch array %s written by an earlier loop in an unsupported pattern (qvars of the write %s, of the read %s, op %s)" % (p.arr.name, [tm.show(q[0]) for q in e.qvars], [tm.show(q) for q in cur_q], e.op))
             raise CUnsupported("read of %s after writes by an earlier loop nest" % p.arr.name)
+        if acc:
+            # accumulated onto the content the array had on entry
+            return tm.mk_add(tm.mk_fn("rd:" + p.arr.name, p.off) if p.arr.kind != "int" else tm.mk_fi(p.arr.name, p.off), *acc)
         return None
 
     def _cannot_alias(self, e, extra, p):
